@@ -242,13 +242,10 @@ func (c *Counter) releaseLock(state counterStateBits) {
 			}
 			debugPrintf("releaseLock %s: reset havePtr (extra=%d)\n", c.name, state.extra())
 
-			// Optimization: only bother loading a new pointer
-			// if we have a value to add to it.
-			c.ptr = counterPtr{nil, nil}
-			if state.extra() != 0 {
-				c.ptr = c.file.lookup(c.name)
-				debugPrintf("releaseLock %s: ptr=%v\n", c.name, c.ptr)
-			}
+			// Always load the new pointer: leaving it nil with havePtr set
+			// would keep all later increments in memory.
+			c.ptr = c.file.lookup(c.name)
+			debugPrintf("releaseLock %s: ptr=%v\n", c.name, c.ptr)
 		}
 
 		if extra := state.extra(); extra != 0 && c.ptr.count != nil {
